@@ -7,6 +7,7 @@ import (
 	"flag"
 	"fmt"
 	"os"
+	"os/exec"
 )
 
 // Main is the entry point shared by the per-property binaries (cmd/<id>).
@@ -27,6 +28,7 @@ func Main() {
 		depth := fs.Int("depth", 30, "")
 		maxm := fs.Int("maxmismatch", 50, "")
 		out := fs.String("out", "", "")
+		child := fs.String("child", "", "")
 		_ = fs.Parse(os.Args[4:])
 		name, path := os.Args[2], os.Args[3]
 		lts, err := LoadLTS(path)
@@ -34,8 +36,53 @@ func Main() {
 			fmt.Fprintln(os.Stderr, err)
 			os.Exit(2)
 		}
-		rep := Walk(name, New(name), lts, *seed, *walks, *depth, *maxm)
-		writeJSON(*out, rep)
+		if *child != "" {
+			// one leg of a restartable walk: load state, continue, save state; exit 3 = continue me
+			st := &WalkState{}
+			if b, err := os.ReadFile(*child); err == nil && len(b) > 0 {
+				if err := json.Unmarshal(b, st); err != nil {
+					fmt.Fprintln(os.Stderr, "bad state file", err)
+					os.Exit(2)
+				}
+			}
+			st.AllowRestart()
+			WalkResume(name, New(name), lts, *seed, *walks, *depth, *maxm, st)
+			writeJSON(*child, st)
+			if st.Done {
+				os.Exit(0)
+			}
+			os.Exit(3)
+		}
+		// wrapper: run legs in fresh processes until the walk is done
+		tmp, err := os.CreateTemp("", "verif-walk-*.json")
+		if err != nil {
+			fmt.Fprintln(os.Stderr, err)
+			os.Exit(2)
+		}
+		tmp.Close()
+		defer os.Remove(tmp.Name())
+		for leg := 0; ; leg++ {
+			cmd := exec.Command(os.Args[0], append(append([]string{}, os.Args[1:]...), "-child", tmp.Name())...)
+			cmd.Stderr = os.Stderr
+			err := cmd.Run()
+			if err == nil {
+				break
+			}
+			if ee, ok := err.(*exec.ExitError); ok && ee.ExitCode() == 3 && leg < 10000 {
+				continue
+			}
+			fmt.Fprintln(os.Stderr, "walker leg failed:", err)
+			os.Remove(tmp.Name())
+			os.Exit(2)
+		}
+		st := &WalkState{}
+		b, _ := os.ReadFile(tmp.Name())
+		if err := json.Unmarshal(b, st); err != nil || st.Rep == nil {
+			fmt.Fprintln(os.Stderr, "no walk report", err)
+			os.Exit(2)
+		}
+		st.Rep.Restarts = st.Restarts
+		writeJSON(*out, st.Rep)
 	case "path":
 		// h path <sut> <mismatch.json>: re-apply a recorded failing path; exit 1 if the real code
 		// still disagrees with every expected observation, 0 if it now conforms.
